@@ -166,8 +166,12 @@ Theorem C02_bind_only_adds_the_interface : forall implements errty fields_of i e
 Proof. exact bind_effect. Qed.
 Print Assumptions C02_bind_only_adds_the_interface.
 
-(* the flat list has one provider per provider expression, in the order written *)
+(* the provider list has one provider per provider expression, in the order written: each is the decoding of its
+   expression, except that an interface bound to a Struct expansion has been moved to the result group of the struct's
+   source (requirements, marks, kind and fields never change) *)
 Theorem C02_one_provider_per_expression : forall implements errty fields_of es l, parse implements errty fields_of es = Gen.OK l ->
-  Forall2 (fun x p => decode implements errty fields_of x = Gen.OK p) (leaves_l es) l.
-Proof. exact parse_leaves. Qed.
+  exists l0, Forall2 (fun x p => decode implements errty fields_of x = Gen.OK p) (leaves_l es) l0 /\ Forall2 same_but_provides l0 l.
+Proof.
+  intros implements errty fields_of es l H. destruct (parse_shape _ _ _ _ _ H) as (l0 & _ & S & L). exists l0. split; assumption.
+Qed.
 Print Assumptions C02_one_provider_per_expression.
